@@ -920,11 +920,19 @@ class XsdGroup(XsdComponent, MutableSequence[ModelParticleType],
             if nm.XSI_TYPE not in elem.attrib or self.schema.meta_schema is None:
                 return
 
-        # If it's a restriction the context is the base_type's group
-        group = self.restriction if self.restriction is not None else self
+        # If it's a restriction the context is the group of the base type and,
+        # for a chain of restrictions, the groups of all the types of the chain
+        if self.restriction is None:
+            elements = self.elements
+        else:
+            elements = []
+            group = self
+            while group.restriction is not None:
+                group = group.restriction
+                elements.extend(group.elements)
 
         # Dynamic EDC check of matched element
-        for e in group.elements:
+        for e in elements:
             if not isinstance(e, XsdElement):
                 continue
             elif (other := e.match(elem.tag)) is None:
